@@ -23,6 +23,17 @@ NONPD = {
 }
 
 
+LONG_SPECTRA = {24: ["lin100", "geo1e2", "geo1e3", "geo1e4"], 32: ["lin100", "geo1e2"], 40: ["lin100", "geo1e2"]}
+
+
+def long_spectrum(name, n):
+    """moderately conditioned spectra of size 24-40 on which CG needs 20-50 iterations (1-2 residual resets)"""
+    i = np.arange(n)
+    if name == "lin100":
+        return 1. + 99. * i / (n - 1)
+    return float(name[3:]) ** (i / (n - 1) - 0.5)
+
+
 def spectra(n):
     seen, out = set(), []
     for s in HPD_SPECTRA:
